@@ -1038,6 +1038,10 @@ def client_trace(options_extra, server_chunks, poll, seed_hosts, accept, srcs=No
         client.log = helpers.log = log
         bd.ssh.connect = connect_then_script
         so = sys.stdout
+        # what cmdline.main does with --latency-buffer-size before it calls client.main
+        old_lbs = ssnet.LATENCY_BUFFER_SIZE
+        if options_extra.get("latency_buffer_size"):
+            ssnet.LATENCY_BUFFER_SIZE = options_extra["latency_buffer_size"]
         try:
             try:
                 client._main(L(), None, FW(), None, None, None, options_extra.get("latency_control", False),
@@ -1056,6 +1060,7 @@ def client_trace(options_extra, server_chunks, poll, seed_hosts, accept, srcs=No
                 ev.append("EXC:" + type(e).__name__)
         finally:
             ssnet.Mux.send, ssnet.runonce, client.log, helpers.log, ssnet.select = old
+            ssnet.LATENCY_BUFFER_SIZE = old_lbs
             bd.ssh.connect = real_connect_fn
             sys.stdout = so
         return list(ev), list(bd.sock.rec), list(bd.packaged)
@@ -1077,6 +1082,10 @@ def part_client(ctx):
                     if quick and rng.random() < 0.6 and not (poll is None and seed is None and accept == 100000):
                         continue
                     options = gen_options(rng, full=True)
+                    if n % 4 == 1:
+                        # a tiny latency budget: smaller than the multiplexer's very first message
+                        options["latency_buffer_size"] = rng.choice([1, 2, 5, 6, 7, 8, 14, 15, 16])
+                        ctx.count("client_tiny_latency_budget")
                     ev, writes, packaged = client_trace(options, sc, poll, seed, accept, srcs_small if n % 3 else None)
                     n += 1
                     c1, c2 = (writes + [b"", b""])[:2]
